@@ -492,6 +492,13 @@ def finder_listing(sg, ops, strata_pts, rng, with_u=False):
             d = [rng.randrange(20, 900) / 10000.0 for _ in range(3)]
             o = [rng.randrange(-150, 150) / 10000.0 for _ in range(3)]
             Uijs.append([[d[0], o[0], o[1]], [o[0], d[1], o[2]], [o[1], o[2], d[2]]])
+        if rng.random() < 0.25:
+            # all-integer tensors (nested int lists, as in the module's own demo): results must not be truncated
+            Uijs = []
+            for _ in range(n):
+                d = [rng.randrange(1, 10) for _ in range(3)]
+                o = [rng.randrange(-2, 3) for _ in range(3)]
+                Uijs.append([[d[0], o[0], o[1]], [o[0], d[1], o[2]], [o[1], o[2], d[2]]])
     sc = SymmetryConstraints(sg, [list(p) for p in positions], Uijs=Uijs)
     data = {"positions": positions, "labels": labels}
     want = {}
